@@ -225,6 +225,10 @@ func (p *Parser) deconstructMap(rv reflect.Value, numBuffers *int) (buffers [][]
 
 				x := reflect.New(mv.Type())
 				x.Elem().Set(n)
+				if !x.Type().AssignableTo(rv.Type().Elem()) {
+					// map[K]Binary: the element is the slice itself, not a pointer to it.
+					x = x.Elem()
+				}
 				rv.SetMapIndex(mk, x)
 				return nil
 			}
@@ -526,6 +530,10 @@ func (r *reconstructor) reconstructMap(rv reflect.Value) error {
 
 					x := reflect.New(mv.Type())
 					x.Elem().Set(n)
+					if !x.Type().AssignableTo(rv.Type().Elem()) {
+						// map[K]Binary: the element is the slice itself, not a pointer to it.
+						x = x.Elem()
+					}
 					rv.SetMapIndex(mk, x)
 					return nil
 				}
